@@ -7,7 +7,10 @@ package p2c
 // The Done callback built for a picked connection c.
 //@ func (*p2cPicker).buildDoneFunc$1
 //@   prop C14
-//@   opaque logStats
+//@   opaque logStats, Acceptable
+// judging the error runs code of the error value (GRPCStatus): other completions of the same connection may run
+// meanwhile, so the score read before it is stale afterwards - the update must be computed from a score read after it
+//@   havoc-on Acceptable: p2c.subConn.success
 //@   requires c != nil && p != nil && p.stamp != nil
 //@   requires c.success <= 1000 && c.lag < 4503599627370496
 //@   let lagNow = max(0, ret(timex.Now) - start)
@@ -25,19 +28,24 @@ package p2c
 //@   replay p2c_done
 //@   replay-assume old(c.success) <= 1000 && old(c.lag) <= 1000000 && ret(timex.Now) <= 100000000000 && old(c.last) >= 0
 //@   ensures [inflight] c.inflight == old(c.inflight) - 1
-//@   ensures [success-range] 0 <= c.success && c.success <= 1000
-//@   ensures [success-up] ok ==> c.success >= old(c.success)
-//@   ensures [success-down] !ok ==> c.success <= old(c.success)
+// `prev` is the score this completion READ (atomically, after the error was judged): other completions may have
+// changed the score since entry, so every statement is relative to what was read, not to the entry value
+//@   let prev = ret("atomic.LoadUint64", 0, 2)
+//@   observe Prev = prev
+//@   ensures [scores-read-then-stored] calls("atomic.LoadUint64") == 2 && calls("atomic.StoreUint64") == 2 && calls("atomic.AddUint64") == 0
+//@   ensures [success-range] prev <= 1000 ==> 0 <= c.success && c.success <= 1000
+//@   ensures [success-up] ok && prev <= 1000 ==> c.success >= prev
+//@   ensures [success-down] !ok && prev <= 1000 ==> c.success <= prev
 // whenever time has passed since the previous completion (decay weight w < 1) the score really moves: an
 // acceptable completion raises it while it is below 1000, an unacceptable one lowers it while it is above 0 - so a
 // recovered backend regains its score and a failing one loses it, however dense the traffic
 // (stepping stone for the solver: the weighted mean of the old score and 1000 lies strictly above the old score)
-//@   ensures [mean-above-old-score] old(c.success) < 1000 && ret(math.Exp) < 1.0 ==> real(old(c.success)) * ret(math.Exp) + 1000.0 * (1.0 - ret(math.Exp)) > real(old(c.success))
-//@   ensures [acceptable-really-moves-up] ok && old(c.success) < 1000 && ret(math.Exp) < 1.0 ==> c.success > old(c.success)
-//@   ensures [unacceptable-really-moves-down] !ok && old(c.success) > 0 && ret(math.Exp) < 1.0 ==> c.success < old(c.success)
+//@   ensures [mean-above-old-score] prev < 1000 && ret(math.Exp) < 1.0 ==> real(prev) * ret(math.Exp) + 1000.0 * (1.0 - ret(math.Exp)) > real(prev)
+//@   ensures [acceptable-really-moves-up] ok && prev < 1000 && ret(math.Exp) < 1.0 ==> c.success > prev
+//@   ensures [unacceptable-really-moves-down] !ok && prev > 0 && prev <= 1000 && ret(math.Exp) < 1.0 ==> c.success < prev
 // an unacceptable completion that arrives later than the previous one strictly lowers a positive score
 // (so an all-failing backend reaches the unhealthy range after a bounded number of spaced completions)
-//@   ensures [success-strictly-down] !ok && ret(timex.Now) > old(c.last) && old(c.success) > 0 && old(c.lag) > 0 ==> c.success < old(c.success)
+//@   ensures [success-strictly-down] !ok && ret(timex.Now) > old(c.last) && prev > 0 && prev <= 1000 && old(c.lag) > 0 ==> c.success < prev
 //@   ensures [lag-between] min(old(c.lag), lagNow) <= c.lag && c.lag <= max(old(c.lag), lagNow)
 //@   ensures [lag-first] old(c.lag) == 0 ==> c.lag == lagNow
 //@   ensures [last] c.last == ret(timex.Now)
